@@ -760,7 +760,7 @@ def _fe_slot_lookup(ctx):
     ctx.check(not bad, "slot/nearest-frame-wins", q + " | <frame stacks x value kinds x default>", msg, detail=f"{n} lookups")
 
 
-CONTROLS = [b"\x00", b"\x01", b"\x08", b"\x0b", b"\x0c", b"\x1b", b"\x1f", b"\x7f", b"\t", b"\n", b"\r"]
+CONTROLS = [b"\x00", b"\x0b", b"\x1b", b"\x7f", b"\t", b"\n"]      # C0 controls that XML/HTML cannot carry, DEL, and two that they can
 
 
 def _flatten_control(ctx):
